@@ -376,9 +376,14 @@ fn via_setters<'h>(input: &Input<'h>, alt: bool) -> Input<'h> {
     // reset to what `Input::new` gives)
     let mut i = input.clone();
     let sp = input.get_span();
-    i.set_span(0..input.haystack().len());
-    i.set_anchored(Anchored::No);
-    i.set_earliest(false);
+    let len = input.haystack().len();
+    i.set_span(0..len);
+    // ... and then used for something else first: an `Input` object may be
+    // re-configured any number of times, and only the last setting counts
+    i.set_end(len / 2);
+    i.set_start(1.min(len / 2));
+    i.set_anchored(if input.get_anchored().is_anchored() { Anchored::No } else { Anchored::Yes });
+    i.set_earliest(!input.get_earliest());
     // the setters are independent of each other, so any order must do
     let order: [u8; 3] = match sp.end % 3 {
         0 => [0, 1, 2],
@@ -391,11 +396,23 @@ fn via_setters<'h>(input: &Input<'h>, alt: bool) -> Input<'h> {
                 if !alt {
                     i.set_span(sp);
                 } else if sp.start % 2 == 0 {
-                    i.set_range(sp.start..sp.end);
+                    // every spelling of a range; open ends mean the haystack's ends
+                    if sp.end == len && sp.start == 0 && len % 2 == 0 {
+                        i.set_range(..);
+                    } else if sp.end == len {
+                        i.set_range(sp.start..);
+                    } else if sp.start == 0 {
+                        i.set_range(..sp.end);
+                    } else if sp.end > sp.start && sp.end % 2 == 1 {
+                        i.set_range(sp.start..=sp.end - 1);
+                    } else {
+                        i.set_range(sp.start..sp.end);
+                    }
                 } else {
-                    // start first: the span covers the whole haystack at this point, so start <= end + 1 holds throughout
-                    i.set_start(sp.start);
+                    // end first: the current start is 0 or 1, so start <= end + 1
+                    // holds after the first call, and the wanted span is valid
                     i.set_end(sp.end);
+                    i.set_start(sp.start);
                 }
             }
             1 => i.set_anchored(input.get_anchored()),
@@ -517,7 +534,8 @@ impl S {
     ) -> Result<Vec<M>, MatchError> {
         let r = route(&input);
         match self {
-            S::Top(t) if r == 2 && supported(t, &input, true) => {
+            // (an anchored overlapping *iterator* is rejected whatever the configuration)
+            S::Top(t) if r == 2 && supported(t, &input, true) && !input.get_anchored().is_anchored() => {
                 Ok(t.find_overlapping_iter(via_setters(&input, true)).take(cap).map(mm).collect())
             }
             _ => {
